@@ -118,7 +118,7 @@ def model(seed, i):
     rss = []
     for j in range(nlibs + 1):
         P = 'abcd'[j] + '_'
-        m = gen_schema.Gen(random.Random('c20mf/%d/%d/%d' % (seed, i, j))).schema('mf%d_%d%s' % (seed, i, 'abcd'[j]), n_entities=rng.randint(3, 4))
+        m = F._one_per_line(gen_schema.Gen(random.Random('c20mf/%d/%d/%d' % (seed, i, j))).schema('mf%d_%d%s' % (seed, i, 'abcd'[j]), n_entities=rng.randint(3, 4)))
         F.prefix_model(m, P)
         rss.append(F.enrich(m, random.Random('c20mfe/%d/%d/%d' % (seed, i, j)), P))
     a = rss[0]
